@@ -178,8 +178,15 @@ def classify(rec: dict) -> str | None:
 
 
 def _safe(scn):
+    from ..core import alarm
+
     try:
-        return observe(scn)
+        with alarm(120):
+            return observe(scn)
+    except TimeoutError:
+        # a pathological member (an implicit solver crawling towards a finite-time blow-up, sympy simplifying a huge
+        # piecewise): not judged, counted
+        return {"idx": scn["idx"], "shape": {}, "timeout": True}
     except Exception as e:  # noqa: BLE001
         import traceback
 
@@ -203,8 +210,11 @@ def run(ctx: Ctx) -> int:
     ]
     scns = cg.generate(ctx, rep, parts)
     recs = pmap(_safe, scns, chunk=4)
-    n_sym = n_clo = n_traj = n_raise = n_upd = 0
+    n_sym = n_clo = n_traj = n_raise = n_upd = n_timeout = 0
     for scn, rec in zip(scns, recs):
+        if rec.get("timeout"):
+            n_timeout += 1
+            continue
         if "harness_error" in rec:
             # an exception escaping the library while the model is built or queried is the library's answer
             rep.evaluations += 1
@@ -230,7 +240,8 @@ def run(ctx: Ctx) -> int:
                              "derived-declared-early" if rec["shape"]["derived_declared_early"] else None)
     rep.notes.update({"symbolic_models_conforming": n_sym, "integrator_closures_conforming": n_clo,
                       "models_with_conforming_trajectories": n_traj,
-                      "integrator_closures_conforming_after_parameter_update": n_upd, "conversion_raised": n_raise})
+                      "integrator_closures_conforming_after_parameter_update": n_upd, "conversion_raised": n_raise,
+                      "members_not_judged_after_120s": n_timeout})
     if (n_sym < 30 or n_clo < 30) and not rep.violations:
         raise MachineryError(f"vacuity: symbolic {n_sym}, closures {n_clo}")
     for s in scns[:2]:
